@@ -130,6 +130,7 @@ func (c *Compiler) codeToOpcodeSet(typ *runtime.Type, code Code) (*OpcodeSet, er
 	codeLength := noescapeKeyCode.TotalLength()
 	return &OpcodeSet{
 		Type:                     typ,
+		BoxedValue:               isBoxedValue(typ, code),
 		NoescapeKeyCode:          noescapeKeyCode,
 		EscapeKeyCode:            escapeKeyCode,
 		InterfaceNoescapeKeyCode: interfaceNoescapeKeyCode,
@@ -139,6 +140,52 @@ func (c *Compiler) codeToOpcodeSet(typ *runtime.Type, code Code) (*OpcodeSet, er
 		Code:                     code,
 		QueryCache:               map[string]*OpcodeSet{},
 	}, nil
+}
+
+// isBoxedValue reports whether a value of the type has to be handed to its program through the
+// address of a copy of the interface word that holds it: the program of an array ( and of a
+// struct whose only member is such an array ) addresses memory, but a one-element array of a
+// pointer-shaped type is stored in the interface word itself.
+func isBoxedValue(typ *runtime.Type, code Code) bool {
+	if runtime.IfaceIndir(typ) {
+		return false
+	}
+	// ( the program of a pointer to an array is an ArrayCode too: the kind decides )
+	switch code.(type) {
+	case *ArrayCode:
+		return typ.Kind() == reflect.Array
+	case *StructCode:
+		return typ.Kind() == reflect.Struct && holdsDirectArray(typ)
+	}
+	return false
+}
+
+// holdsDirectArray reports whether the word that is a value of the pointer-shaped type is, at
+// some depth of single-member structs, a one-element array.
+func holdsDirectArray(typ *runtime.Type) bool {
+	for {
+		switch typ.Kind() {
+		case reflect.Array:
+			return true
+		case reflect.Struct:
+			// the one member that fills the word ( a struct does not contain itself by value:
+			// the walk ends )
+			var member *runtime.Type
+			for i := 0; i < typ.NumField(); i++ {
+				fieldType := runtime.Type2RType(typ.Field(i).Type)
+				if fieldType.Size() != 0 {
+					member = fieldType
+					break
+				}
+			}
+			if member == nil {
+				return false
+			}
+			typ = member
+		default:
+			return false
+		}
+	}
 }
 
 func (c *Compiler) typeToCode(typ *runtime.Type) (Code, error) {
@@ -583,7 +630,9 @@ func (c *Compiler) structCode(typ *runtime.Type, isPtr bool) (*StructCode, error
 		derefCode.isRecursive = true
 		return &derefCode, nil
 	}
-	indirect := runtime.IfaceIndir(typ)
+	// a struct that holds a one-element array in its only word is boxed ( see isBoxedValue ):
+	// its program sees it in memory like any other struct
+	indirect := runtime.IfaceIndir(typ) || holdsDirectArray(typ)
 	code := &StructCode{typ: typ, isPtr: isPtr, isIndirect: indirect}
 	c.structTypeToCode[typeptr] = code
 
